@@ -24,33 +24,33 @@ type Clause struct {
 }
 
 type FuncContract struct {
-	Pkg      string // package path the contract file belongs to ("" for stdlib.spec)
-	Name     string // relative name (or full name for stdlib)
-	IsIface  bool
-	Props    []string
-	Requires []*Clause
-	Ensures  []*Clause
-	Sinks    []*Clause
-	LoopInv  map[int][]*Clause
-	LoopGhost map[int][]*GhostVar
-	Modifies []string // nil = unspecified (havoc all)
-	NoMod    bool
-	Pure     bool
-	Fresh    bool // result is a freshly allocated object
-	Trusted  bool // contract assumed, body not verified
-	Safety   bool // generate safety obligations for this function
-	NoInline bool
-	Nilable  map[string]bool
-	ParamNames []string // for stdlib specs: names given to parameters
-	Assumed  bool // from stdlib.spec
-	MayPanic bool
-	Lemma    bool
+	Pkg         string // package path the contract file belongs to ("" for stdlib.spec)
+	Name        string // relative name (or full name for stdlib)
+	IsIface     bool
+	Props       []string
+	Requires    []*Clause
+	Ensures     []*Clause
+	Sinks       []*Clause
+	LoopInv     map[int][]*Clause
+	LoopGhost   map[int][]*GhostVar
+	Modifies    []string // nil = unspecified (havoc all)
+	NoMod       bool
+	Pure        bool
+	Fresh       bool // result is a freshly allocated object
+	Trusted     bool // contract assumed, body not verified
+	Safety      bool // generate safety obligations for this function
+	NoInline    bool
+	Nilable     map[string]bool
+	ParamNames  []string // for stdlib specs: names given to parameters
+	Assumed     bool     // from stdlib.spec
+	MayPanic    bool
+	Lemma       bool
 	ReplayHints map[string]string // parameter name (or "recv") -> Go expression used by replay instead of a model value
-	Shallow  bool     // do not inline callees when verifying this function (large functions)
-	Uses     []string // quantified axioms this function's proof may use
-	SpecNames []string // spec-level aliases for the results of a pure function (one per result)
-	File     string
-	Line     int
+	Shallow     bool              // do not inline callees when verifying this function (large functions)
+	Uses        []string          // quantified axioms this function's proof may use
+	SpecNames   []string          // spec-level aliases for the results of a pure function (one per result)
+	File        string
+	Line        int
 }
 
 // GhostVar: a ghost loop accumulator: "loop K ghost NAME SORT init E step E" (step is evaluated on every back edge,
@@ -64,27 +64,27 @@ type GhostVar struct {
 }
 
 type SpecFunc struct {
-	Name    string
-	Params  []Binder
-	Result  string
-	Body    *SExpr // nil for abstract
-	Src     string
+	Name   string
+	Params []Binder
+	Result string
+	Body   *SExpr // nil for abstract
+	Src    string
 }
 
 type SpecDB struct {
-	funcs   map[string]*FuncContract // key: pkgpath + "::" + relname ; stdlib: full name
-	ifaces  map[string]*FuncContract // key: pkgpath.Iface.Method
-	specFns map[string]*SpecFunc
-	axioms  []*Clause
-	lemmas  []*Clause
-	stable  map[string]bool // "pkgpath.Type.field" or "pkgpath.Type.*"
-	nonnil  map[string]bool
-	ghosts  map[string]Sort
-	files   []string
-	mirrorUsed []string
-	guarded map[string]string // "pkgpath.Type.field" -> mutex field (C20)
-	atomicOnly map[string]bool
-	scans   []*ScanSpec
+	funcs       map[string]*FuncContract // key: pkgpath + "::" + relname ; stdlib: full name
+	ifaces      map[string]*FuncContract // key: pkgpath.Iface.Method
+	specFns     map[string]*SpecFunc
+	axioms      []*Clause
+	lemmas      []*Clause
+	stable      map[string]bool // "pkgpath.Type.field" or "pkgpath.Type.*"
+	nonnil      map[string]bool
+	ghosts      map[string]Sort
+	files       []string
+	mirrorUsed  []string
+	guarded     map[string]string // "pkgpath.Type.field" -> mutex field (C20)
+	atomicOnly  map[string]bool
+	scans       []*ScanSpec
 	specAliases map[string]specAlias
 	pkgDefault  map[string]*FuncContract
 }
